@@ -362,14 +362,14 @@ def eval_container_show(P, T, is_map):
     fn = P.fn(fname)
     POS0, OUT = 40, 2
     n_eval = 0
-    scen = [(sc, False) for sc in absmodel.scenarios(T)] + ([(3, True)] if T == 'Tuple' else [])
+    scen = [(sc, False) for sc in absmodel.scenarios(T)] + ([(3, 2), (3, 1)] if T == 'Tuple' else [])
     for sc, dup in scen:
         M = absmodel.build(P, T, sc)
         label = M.label
-        if dup:                                     # the first object is stored again, third
-            M.atoms[('elem', 'items', 2, None)] = M.elems[0]
-            M.elems[2] = M.elems[0]
-            label += ', one object stored twice'
+        if dup:                                     # the first object is stored again, at the third / the second position
+            M.atoms[('elem', 'items', dup, None)] = M.elems[0]
+            M.elems[dup] = M.elems[0]
+            label += ', the first object stored again at position %d' % (dup + 1)
         n = M.n
         elems = [x for kv in zip(M.elems, M.vals) for x in kv] if is_map else list(M.elems)
         shown, state = [], {'pos': POS0}
